@@ -9,7 +9,7 @@ CORR_MODULES = ["Xcdr.SpecCorr"]
 PREFIX = "C10"
 CASE_TYPE = "C10_case"
 HARNESS = "c09"
-LEVEL = "proof-partial"
+LEVEL = "proof"
 # classes 1 (C10-char8-utf8) and 4 (C10-float128-xcdr1-reader) were repaired in /repo (c6ffb24, 0b5427b)
 KNOWN = {2: "C10-wstring-format", 3: "C10-xcdr1-optional-origin"}
 RULE = ("one case = a run-time built DynamicType + DynamicData (common subset: no mutable structure, no union) "
